@@ -78,6 +78,13 @@ def suites(tier, seed):
             cases.append({"text": txt, "protocol": "v2", "tree": t, "rendering": name})
         if t[0] == "and":           # list-of-terms form: every argument is one term, AND-ed
             cases.append({"text": [render_min(t[1]), render_min(t[2], None, True)], "protocol": "v2", "tree": t, "rendering": "list"})
+            # terms in their redundant / canonical renderings: "(a) or (b)" starts and ends with a parenthesis without being one group
+            cases.append({"text": [render_full(t[1]), render_full(t[2])], "protocol": "v2", "tree": t, "rendering": "list-redundant"})
+            cases.append({"text": [canonical(t[2]), render_full(t[1])], "protocol": "v2", "tree": ("and", t[2], t[1]), "rendering": "list-mixed"})
+
+            def open_top(e):            # "(l) op (r)": parenthesised operands, no parentheses around the whole term
+                return "(%s) %s (%s)" % (render_min(e[1]), e[0], render_min(e[2])) if e[0] in ("and", "or") else render_min(e)
+            cases.append({"text": [open_top(t[1]), open_top(t[2])], "protocol": "v2", "tree": t, "rendering": "list-open"})
     cases.append({"text": "", "protocol": "v2", "tree": ("true",), "rendering": "empty"})
     cases.append({"text": [], "protocol": "v2", "tree": ("true",), "rendering": "empty-list"})
     for _ in range(3000 if thorough else 500):
